@@ -2,7 +2,9 @@
 (* Trace validation for BlockGraph: blocks scheduled by the real ScheduledProgram::from_program
    (harness/src/props/c22.rs, drive_blocks) are replayed against the module's actions.
 
-     reset {prog, term, regions, frames}   a new block: the real handler's summary of every instruction
+     reset {instrs, term, uq, regions,     a new block: its instructions and terminator in abstract syntax, the
+            frames, real, real_term}       program's used qubits and defined frames, and (real, real_term) the real
+                                           handler's summary of every instruction
      step  {n, in}                          loop iteration n, with the real edges that enter node n
      term  {}                               the terminator's iteration
      done  {edges}                          the public result: all edges of the real graph
@@ -10,9 +12,13 @@
    Strict = TRUE : every event must be explained by Step / StepTerm / Finish with the recorded edges
                    (binding at loop-iteration granularity; the module's loop invariants are checked too).
    Strict = FALSE: step / term events are only consumed.
+   The summaries the model works with - and hence the conflict relations of the verdict - are computed by the
+   specification (Handler!Summary: MemAccess!Demanded, FrameMatch!UsedBy / BlockedBy) from the instructions; in
+   strict mode the real handler's summaries must equal them (binding; a difference is a divergence of C26 / C27's
+   concern, and the lenient run then still judges the graph against the specification's summaries).
    In both modes the `done` event is judged by the property predicates of the properties listed in
    Verdict, evaluated by TLC on the recorded real graph.                                               *)
-EXTENDS BlockGraph, Json, IOUtils
+EXTENDS BlockGraph, Handler, Json, IOUtils
 CONSTANTS Strict, Verdict
 
 Rec == ndJsonDeserialize(IOEnv.TRACE)
@@ -26,9 +32,13 @@ ToEdges(js) == {E(js[n].from, js[n].to, js[n].l) : n \in DOMAIN js}
 TInit == l = 1 /\ RunInit(<<>>, <<>>, {}, {}) /\ phase = "done"
 IsEvent(e) == l <= Len(Rec) /\ Rec[l].ev = e /\ l' = l + 1
 
+SpecSums(is, F, qs) == [n \in DOMAIN is |-> Summary(is[n], F, qs)]
 TReset == /\ IsEvent("reset")
-          /\ prog' = [n \in DOMAIN Rec[l].prog |-> ToSum(Rec[l].prog[n])]
-          /\ term' = [n \in DOMAIN Rec[l].term |-> ToSum(Rec[l].term[n])]
+          /\ prog' = SpecSums(Rec[l].instrs, Range(Rec[l].frames), Range(Rec[l].uq))
+          /\ term' = SpecSums(Rec[l].term, Range(Rec[l].frames), Range(Rec[l].uq))
+          /\ IF Strict THEN /\ prog' = [n \in DOMAIN Rec[l].real |-> ToSum(Rec[l].real[n])]
+                            /\ term' = [n \in DOMAIN Rec[l].real_term |-> ToSum(Rec[l].real_term[n])]
+                       ELSE TRUE
           /\ regions' = Range(Rec[l].regions) /\ frames' = Range(Rec[l].frames)
           /\ pc' = 1
           /\ mem' = [x \in Range(Rec[l].regions) |-> NewCell("mem")]
